@@ -15,6 +15,7 @@ type mapEntry struct {
 type MapState struct {
 	Entries []mapEntry
 	Global  string // non-empty: stored in this package-level variable
+	Opaque  bool   // content unknown (havocked)
 }
 
 func (u *Unit) mapUpdate(st *State, fr *Frame, in *ssa.MapUpdate, m MapV) {
@@ -25,6 +26,9 @@ func (u *Unit) mapUpdate(st *State, fr *Frame, in *ssa.MapUpdate, m MapV) {
 		return
 	}
 	ms := st.maps[m.ID]
+	if ms != nil && ms.Opaque {
+		return
+	}
 	var n MapState
 	if ms != nil {
 		n = MapState{Entries: append(ms.Entries[:len(ms.Entries):len(ms.Entries)], mapEntry{}), Global: ms.Global}
@@ -46,6 +50,9 @@ func (u *Unit) localMapLookup(st *State, m MapV, key Val, vt types.Type) *mapHit
 	ms := st.maps[m.ID]
 	if ms == nil {
 		return &mapHit{v: u.zeroVal(vt), ok: TFalse}
+	}
+	if ms.Opaque {
+		return nil
 	}
 	val := u.zeroVal(vt)
 	ok := TFalse
